@@ -16,10 +16,11 @@ package connectconformance
 //@ guarded clientProcessRunner: closedSend by sendMu
 //@ monitor clientProcessRunner by pendingMu: self.pendingOps != nil
 
+//@ mapvalues map[string]func(string, *conformancev1.ClientCompatResponse, error): v != nil
 //@ ghost cbCount: string -> int
 //@ func clientProcessRunner.pendingOps
 //@   modifies cbCount
-//@   ensures cbCount == old(cbCount)[arg0 := old(cbCount[arg0]) + 1]
+//@   ensures cbCount == old(cbCount)[arg1 := old(cbCount[arg1]) + 1] //# arg1: the name the callback is invoked with
 
 //@ func processController.abort
 //@   trusted
@@ -57,8 +58,45 @@ package connectconformance
 // before the request is written, and taken back (if the reader has not consumed it meanwhile)
 // when the write fails. It never invokes a callback itself.
 //@ func (*clientProcessRunner).sendRequest
-//@   requires c != nil && c.proc != nil && c.proc.stdin != nil && req != nil
+//@   requires c != nil && c.proc != nil && c.proc.stdin != nil && req != nil && whenDone != nil && !held[c.sendMu] && !held[c.pendingMu]
+//@   requires errClosed != nil && errDuplicate != nil //# package-level sentinels, set once at initialisation
 //@   modifies held, mapof(clientProcessRunner.pendingOps), atomicPtr, wrOut, wireFmt, *error
 //@   ensures @nocallback cbCount == old(cbCount)
 //@   ensures @unlocked !held[c.sendMu] && !held[c.pendingMu]
 //@   ensures @closed c.closedSend ==> err != nil
+//@   ensures @open err == nil ==> !atlock(c.closedSend, 1)
+//@   ensures @dup !atlock(c.closedSend, 1) && atlock(has(c.pendingOps, req.TestName), 2) ==> err != nil && has(c.pendingOps, req.TestName) &&
+//@        c.pendingOps[req.TestName] == atlock(c.pendingOps[req.TestName], 2)
+//@   ensures @undone !atlock(c.closedSend, 1) && !atlock(has(c.pendingOps, req.TestName), 2) && err != nil ==> !has(c.pendingOps, req.TestName)
+//@   assert_at "c.pendingMu.Unlock()"#1: !exists ==> has(c.pendingOps, req.TestName) && c.pendingOps[req.TestName] == whenDone
+
+// consumeOutput: reads responses until the stream ends or misbehaves. Each response takes its
+// callback out of the map (under the lock) and then invokes it, once, with the response's own
+// name; a response without a registered callback ends the loop. On the way out (deferred):
+// on any end other than a clean EOF the failure is recorded and the runner marked terminated;
+// the send side is closed; every callback still registered is invoked once with an error,
+// under its own name, and removed - the map ends up empty; the done channel is closed once.
+//@ func (*clientProcessRunner).consumeOutput$1
+//@   option rangedelete
+//@   requires c != nil && c.proc != nil && c.proc.stdin != nil && c.proc.processController != nil && !held[c.sendMu] && !held[c.pendingMu]
+//@   modifies held, mapof(clientProcessRunner.pendingOps), atomicPtr, atomicBoolV, clientProcessRunner.closedSend, cbCount
+//@   ensures @closed c.closedSend
+//@   ensures @drained forall k string :: !has(c.pendingOps, k)
+//@   ensures @each forall k string :: cbCount[k] == old(cbCount[k]) + (atlock(has(c.pendingOps, k)) ? 1 : 0)
+//@   ensures @terminated reasonForReturn != nil && !errIs(reasonForReturn, io.EOF) ==> atomicBoolV[fieldaddr(c, terminated)]
+//@   loop 0: invariant c.closedSend && held[c.pendingMu] && c.pendingOps == atlock(c.pendingOps) && c.pendingOps != nil
+//@           invariant forall k string :: has(c.pendingOps, k) ==> rangeidx(k) >= rangepos
+//@           invariant forall k string :: cbCount[k] == atpre(cbCount[k]) + ((atlock(has(c.pendingOps, k)) && rangeidx(k) < rangepos) ? 1 : 0)
+//@           invariant reasonForReturn != nil && !errIs(reasonForReturn, io.EOF) ==> atomicBoolV[fieldaddr(c, terminated)]
+
+//@ func (*clientProcessRunner).consumeOutput
+//@   requires c != nil && c.proc != nil && c.proc.stdin != nil && c.proc.stdout != nil && c.proc.processController != nil && !held[c.sendMu] && !held[c.pendingMu]
+//@   requires c.done != nil && !chanClosed[c.done]
+//@   modifies held, mapof(clientProcessRunner.pendingOps), atomicPtr, atomicBoolV, clientProcessRunner.closedSend, cbCount, chanClosed, rdPos, map[string]struct{}, *error, conformancev1.ClientCompatResponse.*, conformancev1.ServerCompatResponse.*
+//@   ensures @done chanClosed[c.done]
+//@   ensures @closed c.closedSend
+//@   ensures @drained forall k string :: !has(c.pendingOps, k)
+//@   ensures @monotone forall k string :: cbCount[k] >= old(cbCount[k])
+//@   assert_at "action(resp.TestName, resp, nil)": !has(c.pendingOps, resp.TestName) && !held[c.pendingMu]
+//@   loop 0: invariant !held[c.sendMu] && !held[c.pendingMu] && reasonForReturn == nil && testCaseNames != nil && !chanClosed[c.done]
+//@           invariant forall k string :: cbCount[k] >= atpre(cbCount[k])
